@@ -372,6 +372,19 @@ var c10Seq = probe.Define("C10", "history", func(t *rapid.T) c10In {
 
 var c10Table = probe.Define("C10", "table", func(t *rapid.T) c10In { panic("enumerated") }, c10Oracle)
 
+// c10TableLengths: every ciphertext length 0..96, and the block-aligned ones up to 18 blocks of body (a decoder may treat long
+// bodies on another path than short ones)
+func c10TableLengths() []int {
+	var out []int
+	for l := 0; l <= 96; l++ {
+		out = append(out, l)
+	}
+	for l := 112; l <= 16+18*16; l += 16 {
+		out = append(out, l, l+1)
+	}
+	return out
+}
+
 func TestC10(t *testing.T) {
 	c := probe.NewCtx(t, "C10")
 	idleStart(c, "cipher")
@@ -389,7 +402,7 @@ func TestC10(t *testing.T) {
 		for e := 0; e < 3; e++ {
 			key := bytes.Repeat([]byte{byte(0x10 + e)}, ref.Encrs[e].KeyLen)
 			iv := bytes.Repeat([]byte{0x77}, 16)
-			for l := 0; l <= 96; l++ {
+			for _, l := range c10TableLengths() {
 				var ops []c10Op
 				for v := 0; v < 256; v++ {
 					var ct []byte
